@@ -4,7 +4,7 @@
    [to_src] turns a model automaton into one.  States the source keeps as usize / Option<usize> are N /
    option N in the translation and nat / option nat in the model: the statements convert explicitly.
    Same format as SrcFunTie.v (tools/srcfun_tie.py reads the statements). *)
-Require Import FstV.Base FstV.Automaton FstV.Generated.SrcParams FstV.Generated.SrcFuns.
+Require Import FstV.Base FstV.Automaton FstV.Levenshtein FstV.Generated.SrcParams FstV.Generated.SrcFuns.
 Require Import FstV.SrcFunBase.
 Require Import Lia ZifyN ZifyBool ZifyNat.
 Require Import ZArith.
@@ -27,6 +27,21 @@ Proof.
   - rewrite Nat2N.id. symmetry. apply Nat.eqb_refl.
   - symmetry. apply Nat.eqb_neq. intros E. apply H. rewrite <- E. now rewrite N2Nat.id.
 Qed.
+
+(* rows of the Levenshtein DP: usize entries are N in the translation and nat in the model *)
+Definition mkL (q : list N) (dist : N) : dynlev := {| dl_query := q; dl_dist := N.to_nat dist |}.
+Lemma N_leb_nat : forall a b, (a <=? b) = Nat.leb (N.to_nat a) (N.to_nat b).
+Proof.
+  intros a b. destruct (N.leb_spec a b); symmetry; [apply Nat.leb_le|apply Nat.leb_gt]; lia.
+Qed.
+Lemma last_opt_map : forall {A B} (f : A -> B) l, last_opt (map f l) = option_map f (last_opt l).
+Proof.
+  intros A B f l. induction l as [|x r IH]; [reflexivity|]. destruct r as [|y r]; [reflexivity|].
+  change (last_opt (map f (x :: y :: r))) with (last_opt (map f (y :: r))).
+  change (last_opt (x :: y :: r)) with (last_opt (y :: r)). exact IH.
+Qed.
+Lemma fold_min_nat : forall r x, N.to_nat (fold_left N.min r x) = fold_left Nat.min (map N.to_nat r) (N.to_nat x).
+Proof. induction r as [|y r IH]; intros x; cbn [fold_left map]; [reflexivity|]. rewrite IH. f_equal. lia. Qed.
 
 (* ==== TIES ==== *)
 
@@ -168,7 +183,33 @@ Proof. reflexivity. Qed.
 Lemma tie_Ref_accept : forall (A : automaton) (s : St A) (b : N), src_fn_Ref_accept (to_src A) s b = accept A s b.
 Proof. reflexivity. Qed.
 
+(* ---- src/automaton/levenshtein.rs DynamicLevenshtein (rows of the DP; the query is its list of scalar values) ---- *)
+(* dl_start:  (0..query.chars().count() + 1).collect()  -- sized by CHARACTERS, not bytes *)
+Lemma tie_DynamicLevenshtein_start : forall (q : list N) (dist : N), len q < P64 - 1 ->
+  src_fn_DynamicLevenshtein_start q dist = Ok (map N.of_nat (dl_start (mkL q dist))).
+Proof.
+  intros q dist Hq. unfold src_fn_DynamicLevenshtein_start, dl_start, mkL, P64 in *. cbn [dl_query].
+  match goal with |- context [?a <=? ?b] => destruct (N.leb_spec a b) end; [|lia].
+  cbn [bind]. unfold src_range, len. rewrite N.sub_0_r. change (N.to_nat 0) with 0%nat.
+  replace (N.to_nat (N.of_nat (length q) + 1)) with (length q + 1)%nat by lia. reflexivity.
+Qed.
+Lemma tie_DynamicLevenshtein_is_match : forall (q : list N) (dist : N) (st : list N),
+  src_fn_DynamicLevenshtein_is_match q dist st = dl_is_match (mkL q dist) (map N.to_nat st).
+Proof.
+  intros. unfold src_fn_DynamicLevenshtein_is_match, dl_is_match, mkL. cbn [dl_dist]. rewrite last_opt_map.
+  destruct (last_opt st); cbn [option_map]; [apply N_leb_nat|reflexivity].
+Qed.
+Lemma tie_DynamicLevenshtein_can_match : forall (q : list N) (dist : N) (st : list N),
+  src_fn_DynamicLevenshtein_can_match q dist st = dl_can_match (mkL q dist) (map N.to_nat st).
+Proof.
+  intros. unfold src_fn_DynamicLevenshtein_can_match, dl_can_match, mkL, src_list_min, row_min. cbn [dl_dist].
+  destruct st as [|x r]; cbn [map]; [reflexivity|]. rewrite <- fold_min_nat. apply N_leb_nat.
+Qed.
+
 (* ==== END ==== *)
+Print Assumptions tie_DynamicLevenshtein_start.
+Print Assumptions tie_DynamicLevenshtein_is_match.
+Print Assumptions tie_DynamicLevenshtein_can_match.
 Print Assumptions tie_Str_start.
 Print Assumptions tie_Str_is_match.
 Print Assumptions tie_Str_can_match.
